@@ -9,7 +9,9 @@ Contract-carrying `open_with` / `mkdirs` callables are handed to the real
       are opened for writing;
   (b) raise OSError at the k-th filesystem call (open-for-write, write, close, mkdirs), for every k up
       to the number of calls of the fault-free run; `write` faults also in a torn variant (half of the
-      bytes reach the file, then OSError).
+      bytes reach the file, then OSError); `close` faults also in a LOST variant: the final flush fails - close() raises
+      OSError AND the bytes buffered since the last explicit flush never reach the file (a small part file is left EMPTY).
+      An append that swallows the close error then returns normally with _metadata referencing an empty file.
 After each run, from a fresh open:  the append raised and the fault came before the summary rewrite
 started -> content == previous content and every pre-existing file is byte-identical;  the append
 returned normally -> content == previous + new rows.  In every case: pre-existing data files byte-identical.
@@ -112,10 +114,18 @@ class C19File:
             raise OSError(5, "injected fault: write", self._rel)
         return self._f.write(data)
 
+    def flush(self):
+        self._f.flush()
+        self._flushed = self._f.tell()
+
     def close(self):
         if self._f.closed:
             return
         if self._t._count("close", self._rel):
+            if self._t.torn:
+                # close() whose final flush fails: the bytes buffered since the last explicit flush never reach the file
+                self._f.flush()
+                self._f.truncate(getattr(self, "_flushed", 0))
             self._f.close()
             raise OSError(5, "injected fault: close", self._rel)
         self._f.close()
@@ -266,7 +276,8 @@ def c19_scenario(fp, spec, root):
     if free["what"] is None:
         for k in range(1, free["n_calls"] + 1):
             results.append((k, False, c19_run_one(fp, spec, template, work, k, False)))
-            if free["calls"][k - 1][0] == "write":
+            if free["calls"][k - 1][0] in ("write", "close"):
+                # write: torn (half the bytes, then OSError); close: the final flush fails - OSError AND the buffered bytes are lost
                 results.append((k, True, c19_run_one(fp, spec, template, work, k, True)))
         # read-side faults at the start of the append (opening the existing dataset)
         rc = free["rcalls"]
@@ -305,9 +316,11 @@ def enumerate_specs(tier, seed):
 def features_of(spec, k, torn, r):
     f = {"partition_cols": 1 if spec["partitioned"] else 0, "new_part_files": spec["new_files"],
          "existing_row_groups": spec["existing_rgs"], "api": spec["api"], "k": k if k is not None else "fault-free",
-         "fault": "none" if k is None else ("read-raise" if isinstance(k, str) else "torn-write" if torn else "raise")}
+         "fault": "none" if k is None else ("read-raise" if isinstance(k, str) else "torn" if torn else "raise")}
     flt = r.get("fault")
     if flt:
+        if f["fault"] == "torn":
+            f["fault"] = "close-lost" if flt["kind"] == "close" else "torn-write"
         f["call"] = flt["kind"]
         f["target"] = "summary" if is_summary(flt["path"]) else ("dir" if flt["kind"] == "mkdirs" else "root" if flt["path"] == "." else "part")
         f["phase"] = flt["phase"]
@@ -350,7 +363,8 @@ def run_bounded(ctx):
         "new part files (partitioned: into an existing directory, an existing + a NEW directory, two chunks); through "
         "fastparquet.write(append=True) | ParquetFile.write_row_groups; for each of the 24 scenarios the fault-free "
         "run, then a fault at EVERY k = 1..N of its N counted calls (open-for-write, write, close of written files, "
-        "mkdirs), every write call also as a torn write (half the bytes, then OSError).  Faults are one-shot OSError. "
+        "mkdirs), every write call also as a torn write (half the bytes, then OSError), every close call also as a LOST close "
+        "(OSError and the buffered bytes never reach the file).  Faults are one-shot OSError. "
         "A fault on the open of _metadata itself counts as 'before the summary rewrite' (nothing truncated yet); later "
         "faults (phase=summary) are outside the statement's first half and only checked for the trace invariant, "
         "untouched data files and 'returned normally => new content'.  Plus READ faults at the start of the append (the existing "
